@@ -19,6 +19,7 @@ func init() { Registry["C13"] = c13 }
 const gormPkg = "gorm.io/gorm"
 
 func c13(r *Report) {
+	defer c13Seed8(r)
 	defer c13Seed5(r)
 	defer c13Seed6(r)
 	p := r.P
